@@ -103,6 +103,9 @@ type Fake struct {
 
 	lis net.Listener
 	srv *http.Server
+	// net mode: data listener and the most recently accepted data connection (the backend dials before it opens)
+	dlis       net.Listener
+	pendingTCP net.Conn
 }
 
 // Conn is one attachment of a fake to the controller (what Factory.Create returns).
@@ -116,6 +119,11 @@ type Conn struct {
 	StopCalls   int32
 	ErrInjected int32
 	Delivered   int32 // the one monitor event has been put on the channel
+	// net mode: the attachment lives behind the real backend; tcp is its data connection
+	net     bool
+	tcp     net.Conn // guarded by F.mu
+	wantTCP bool     // opened before its data connection was accepted
+	dropped int32
 }
 
 const poison = 0xEE
@@ -179,7 +187,18 @@ func (c *Conn) io(kind string, apply func()) error {
 			ret = fmt.Errorf("scripted %s error", kind)
 		}
 		rv.wait()
+		if c.net && o != OK && o != ErrNotApplied {
+			return c.netIO(kind, o)
+		}
 		return ret
+	}
+	if c.net {
+		if o == DelayThenErr && f.W.lateBudget <= 0 {
+			o = ErrNotApplied // a reply later than the rpc deadline costs seconds: only a few per history
+		} else if o == DelayThenErr {
+			f.W.lateBudget--
+		}
+		return c.netIO(kind, o)
 	}
 	switch o {
 	case OK:
@@ -457,6 +476,10 @@ func (c *Conn) StopMonitoring() {
 // InjectMonitor makes the monitor report a failure (ping timeout, connection loss).
 func (c *Conn) InjectMonitor(err error) {
 	atomic.StoreInt32(&c.ErrInjected, 1)
+	if c.net {
+		c.drop() // what the controller can notice of a failing replica: its data connection is gone
+		return
+	}
 	select {
 	case c.inject <- err:
 	default:
@@ -476,7 +499,7 @@ func (c *Conn) monitor() {
 
 // Signalled tells whether this attachment's monitor has been told to fire.
 func (c *Conn) Signalled() bool {
-	return atomic.LoadInt32(&c.StopCalls) > 0 || atomic.LoadInt32(&c.ErrInjected) > 0
+	return atomic.LoadInt32(&c.StopCalls) > 0 || atomic.LoadInt32(&c.ErrInjected) > 0 || atomic.LoadInt32(&c.dropped) > 0
 }
 
 // ---------------------------------------------------------------- factory
@@ -610,7 +633,22 @@ func (f *Fake) startHTTP() error {
 	}
 	f.lis = l
 	mux := http.NewServeMux()
-	mux.HandleFunc("/ping", func(w http.ResponseWriter, r *http.Request) { w.Write([]byte("pong")) })
+	mux.HandleFunc("/ping", func(w http.ResponseWriter, r *http.Request) {
+		f.mu.Lock()
+		alive := f.Alive
+		f.mu.Unlock()
+		if !alive {
+			if hj, ok := w.(http.Hijacker); ok {
+				if c, _, err := hj.Hijack(); err == nil {
+					c.Close()
+					return
+				}
+			}
+			w.WriteHeader(503)
+			return
+		}
+		w.Write([]byte("pong"))
+	})
 	mux.HandleFunc("/v1/replicas/1", f.handleReplica)
 	f.srv = &http.Server{Handler: mux}
 	go f.srv.Serve(l)
@@ -661,6 +699,15 @@ func (f *Fake) infoLocked() rest.Replica {
 func (f *Fake) handleReplica(w http.ResponseWriter, r *http.Request) {
 	if d := atomic.LoadInt32(&f.GetDelayMs); d > 0 && r.Method == "GET" {
 		time.Sleep(time.Duration(d) * time.Millisecond)
+	}
+	if f.W.Net && r.Method == "POST" && netActions[r.URL.Query().Get("action")] {
+		f.mu.Lock()
+		alive := f.Alive
+		f.mu.Unlock()
+		if alive {
+			f.netAction(w, r, r.URL.Query().Get("action"))
+			return
+		}
 	}
 	f.mu.Lock()
 	defer f.mu.Unlock()
